@@ -18,6 +18,16 @@ func main() {
 		os.Exit(cmdExplore(os.Args[2:]))
 	case "check":
 		os.Exit(cmdCheck(os.Args[2:]))
+	case "learn":
+		os.Exit(cmdLearn(os.Args[2:]))
+	case "c05worker":
+		n := 8192
+		from := 0
+		fmt.Sscan(os.Args[2], &n)
+		if len(os.Args) > 3 {
+			fmt.Sscan(os.Args[3], &from)
+		}
+		os.Exit(c05Worker(n, from))
 	case "c06worker":
 		var seed uint64 = 1
 		rounds := 3
